@@ -87,7 +87,7 @@ class Gen:
             leafs.append(("bvalue", 5))
         inner = []
         if d > 0:
-            inner = [("cast", 5), ("and", 3), ("or", 3), ("shl", 4), ("ite", 2), ("let", 1)]
+            inner = [("cast", 5), ("and", 3), ("or", 3), ("shl", 4), ("ite", 2), ("let", 1), ("boolcast", 1)]
             if not is_signed(ty):
                 inner += [("shr", 4), ("not", 2), ("add", 2), ("sub", 3), ("mul", 1)]
                 if ty != "usize":
@@ -110,6 +110,9 @@ class Gen:
             src = r.choice(UNSIGNED + SIGNED + ["usize"])
             e, s = self.int(src, d - 1)
             return "(%s as %s)" % (e, ty), "(cast %s %s)" % (s, ty)
+        if kind == "boolcast":
+            c, sc = self.bool(d - 1)
+            return "(%s as %s)" % (c, ty), "(cast %s %s)" % (sc, ty)
         if kind in ("and", "or", "add", "sub", "mul"):
             op = {"and": "&", "or": "|", "add": "+", "sub": "-", "mul": "*"}[kind]
             x, sx = self.int(ty, d - 1)
